@@ -396,6 +396,8 @@ def run(repo, rep):
     rep.run_borrowed(c12, {'C12-d': 'C03-g'}, repo)
 
     # ---------------------------------------------------------------- h: a PAD lowered to copies defines every byte of its OFM
+    rep.clause("C03-i", "after a Reshape has been bypassed no later rewrite re-derives an operator's OFM shape from the re-shaped tensor (the operator would read IFM positions that its producer never wrote) [rule shared with C02-m]")
+    c02.rule_shape_view(repo, rep, "C03-i")
     rep.clause("C03-h", "convert_pad: the copy of the IFM and the up to four border fills tile the padded OFM exactly, for every combination of pad widths (finite evaluation of the five (shape, write offset) pairs)")
     _rule_convert_pad(repo, rep)
     from . import c04, c08
